@@ -358,13 +358,16 @@ def c07(tier, seed, t0):
     from harness import conform as HC
     agg1, HE = edits("C07", tier, seed, 150 if tier == "quick" else 1800)
     n = 24 if tier == "quick" else 300
-    res = R.run_pool(HC.HNAME, HC.chunks(tier, n), 80 if tier == "quick" else 1200, seed, tier,
+    res = R.run_pool(HC.HNAME, HC.violating_chunks(tier) + HC.chunks(tier, n), 110 if tier == "quick" else 1500, seed, tier,
                      extra=dict(prop="C07", sample_rate=0.1 if tier == "quick" else 0.03, max_ops=1, chunk_time=40 if tier == "quick" else 120),
                      shuffle=False)
     agg2 = R.merge(res)
     agg = merge2(agg1, agg2)
     return report_multi("C07", {HE.HNAME: agg1, HC.HNAME: agg2}, agg, tier, seed, t0, dict(pipeline=EDIT_BOUNDS,
                         conforming_programs=dict(instances=n, micro_skeletons=True, symbolic="identifier / constant / literal slots, <= 1 operator slot"),
+                        violating_programs=dict(operators=HC.STRUCT_OPS, bases="6 (quick) / 59 (thorough) generated .c programs + the maximal programs",
+                                                sites="every applicable site of the operator (solver-chosen)",
+                                                asserted="tiling / progress as above; a function header that follows a closed function is processed at file level"),
                         monitor="test-side wrapper around Context.pop_tokens: (jump, tokens before, len(history), first token column/line, last token "
                                 "type, scope class and level) per main-loop iteration",
                         asserted=["every iteration consumes >= 1 token", "segments are consecutive and cover the stream when run() returns",
